@@ -258,3 +258,15 @@ def same_import_sequence(o):
     except Exception:
         return True
     return ref == dec
+
+
+def name_not_nfkc_stable(o):
+    """The pickle names a global (or keyword) whose spelling changes under NFKC: the decompile, read back as source text,
+    denotes the folded name (Python's parser normalises identifiers), the VM took the original."""
+    import unicodedata
+    for ev in o.ref_log.events:
+        if ev[0] == "import":
+            for s_ in (ev[1], ev[2]):
+                if isinstance(s_, str) and not s_.isascii() and unicodedata.normalize("NFKC", s_) != s_:
+                    return True
+    return False
